@@ -383,7 +383,8 @@ def run_job_native(cfg, job, r, tier):
             found = True
             fails = [l for l in out.split("\n") if l.startswith("FAIL " + m.group(1) + " ")][:3]
             desc = "%s: %s [bounded: %s evaluations over %s]" % (",".join(job["props"]), job.get("desc", m.group(1)).replace("_", " "), m.group(2), m.group(4))
-            r["obligations"].append({"name": job["entry"] + "." + m.group(1), "desc": desc, "status": "SUCCESS" if m.group(3) == "0" else "FAILURE", "class": "contract", "props": job["props"],
+            if job.get("kf"): desc += " [%s]" % job["kf"]
+            r["obligations"].append({"name": job["entry"] + "." + m.group(1), "desc": desc, "status": "SUCCESS" if m.group(3) == "0" else "FAILURE", "class": "kf" if job.get("kf") else "contract", "props": job["props"],
                                      "loc": src, "native_fail": fails, "evaluations": int(m.group(2))})
     if not found:
         r["note"] = "native program produced no RESULT line (rc=%d): %s" % (rc, (out + err)[-500:]); return r
